@@ -518,7 +518,11 @@ func init() {
 				{Name: "patch", N: 1, Note: "operations x paths x values (right, sibling, wrong, nil) x indexes in [-1, len+1] on hand-sized resources; nil resource", Run: func(i int, r *core.Rec) {
 					paths := []string{"Patient", "Patient.name", "Patient.name[0]", "Patient.name[0].given", "Patient.name.given[1]", "Patient.active", "Patient.deceased", "Patient.multipleBirth", "Patient.gender", "Patient.birthDate",
 						"Patient.telecom.where(system = 'phone')", "Patient.telecom.first().rank", "Patient.extension('http://u')", "Patient.extension[0].value", "Patient.managingOrganization", "Patient.managingOrganization.reference",
-						"Patient.generalPractitioner[1]", "Patient.contained[0]", "Patient.contained[0].id", "Patient.meta.tag", "Patient.id", "Patient.name.where(false)", "Patient.noSuch", "1", "'a'", "{}", "Patient.name.count()", "%context", "$this", "Observation.value"}
+						"Patient.generalPractitioner[1]", "Patient.contained[0]", "Patient.contained[0].id", "Patient.meta.tag", "Patient.id", "Patient.name.where(false)", "Patient.noSuch", "1", "'a'", "{}", "Patient.name.count()", "%context", "$this", "Observation.value",
+						// children of primitives (every primitive kind, incl. the date-like ones that keep their value outside a `value` field)
+						"Patient.birthDate.id", "Patient.birthDate.extension", "Patient.birthDate.extension[0]", "Patient.birthDate[0]", "Patient.birthDate.first()", "Patient.deceased.id", "Patient.deceased.extension[0]",
+						"Patient.meta.lastUpdated.id", "Patient.meta.lastUpdated.extension[0]", "Patient.active.id", "Patient.active.extension[0]", "Patient.name[0].given[0].id", "Patient.name[0].given[0].extension[0]", "Patient.gender.extension[0]",
+						"Patient.multipleBirth.id", "Patient.telecom[0].rank.extension[0]", "Patient.birthDate.extension[0].value", "Patient.birthDate.extension('http://e1').value"}
 					values := []struct {
 						name string
 						v    fhir.Base
@@ -528,7 +532,31 @@ func init() {
 					resources := []struct {
 						name string
 						mk   func() fhir.Resource
-					}{{"Patient", func() fhir.Resource { return lib.PatientWithContained() }}, {"Observation", func() fhir.Resource { return lib.Observation() }}, {"nil", func() fhir.Resource { return nil }}}
+					}{{"Patient", func() fhir.Resource { return lib.PatientWithContained() }}, {"Observation", func() fhir.Resource { return lib.Observation() }}, {"nil", func() fhir.Resource { return nil }},
+						{"Patient(primitives with id and extensions)", func() fhir.Resource {
+							ext := func() []*dtpb.Extension {
+								return []*dtpb.Extension{{Url: fhir.URI("http://e1"), Value: &dtpb.Extension_ValueX{Choice: &dtpb.Extension_ValueX_StringValue{StringValue: fhir.String("x")}}}, {Url: fhir.URI("http://e2")}}
+							}
+							p := lib.Patient()
+							p.BirthDate = lib.ProtoDate("1980-02-29")
+							p.BirthDate.Id, p.BirthDate.Extension = fhir.String("bd"), ext()
+							dt := lib.ProtoDateTime("2020-02-29T10:30:15+05:30")
+							dt.Id, dt.Extension = fhir.String("dd"), ext()
+							p.Deceased = &ppb.Patient_DeceasedX{Choice: &ppb.Patient_DeceasedX_DateTime{DateTime: dt}}
+							in := lib.ProtoInstant("2020-02-29T10:30:15.250Z")
+							in.Id, in.Extension = fhir.String("lu"), ext()
+							p.Meta = &dtpb.Meta{LastUpdated: in}
+							p.Active = &dtpb.Boolean{Value: true, Id: fhir.String("ac"), Extension: ext()}
+							if len(p.Name) > 0 && len(p.Name[0].Given) > 0 {
+								p.Name[0].Given[0].Id, p.Name[0].Given[0].Extension = fhir.String("g0"), ext()
+							}
+							p.Gender = &ppb.Patient_GenderCode{Value: 1, Extension: ext()}
+							p.MultipleBirth = &ppb.Patient_MultipleBirthX{Choice: &ppb.Patient_MultipleBirthX_Integer{Integer: &dtpb.Integer{Value: 2, Id: fhir.String("mb")}}}
+							if len(p.Telecom) > 0 {
+								p.Telecom[0].Rank = &dtpb.PositiveInt{Value: 1, Extension: ext()}
+							}
+							return p
+						}}}
 					for _, rs := range resources {
 						for _, p := range paths {
 							w := func(op string, extra ...any) core.W {
